@@ -2,6 +2,7 @@
    Only statements here; proofs live in Header/MapProofs.v. *)
 From Coq Require Import Permutation.
 From AV Require Import Lib.Base Header.Map Header.MapSpec Header.MapProofs.
+From AV Require Import Gen.HeaderMapTables Header.MapTie.
 
 (* After ANY history of insert/append/remove/retain/clear/drain, every query agrees with the
    reference multimap (a flat insertion-ordered pair list): values of one name in insertion
@@ -75,6 +76,35 @@ Theorem C18_http_roundtrip : forall es : list entry,
                     forall k, get_all k m' = get_all k es
   end.
 Proof. exact http_roundtrip. Qed.
+
+
+(* Source tie: the literal decisions of header/map.rs, regenerated from the Rust source on every
+   run (Gen/HeaderMapTables.v), are the ones the model makes: size hint of Removed for an absent
+   key, which element Drain::next takes and how `remaining` is decremented, the name handed out
+   once per group, from_drain's fallback to the previous name, insert/append/retain/len shapes. *)
+Theorem C18_model_matches_source_tables :
+  removed_size_hint None = HM_REMOVED_NONE_HINT /\
+  (forall inner on vs rem,
+     drain_next {| dr_inner := inner; dr_multi := Some (on, vs); dr_rem := rem |} =
+     match take_of HM_DRAIN_TAKES vs with
+     | Some (v, rest) =>
+         if rem <? HM_DRAIN_DEC_PER_ITEM then Panic
+         else Val (Some (on, v), {| dr_inner := inner;
+                                    dr_multi := Some (if HM_DRAIN_NAME_ONCE then None else on, rest);
+                                    dr_rem := rem - HM_DRAIN_DEC_PER_ITEM |})
+     | None => drain_pull inner rem
+     end) /\
+  (forall inner k v vs rem,
+     iter_next {| it_inner := inner; it_multi := Some (k, v :: vs); it_rem := rem |} =
+     if rem <? HM_ITER_DEC_PER_ITEM then Panic
+     else Val (Some (k, v), {| it_inner := inner; it_multi := Some (k, vs); it_rem := rem - HM_ITER_DEC_PER_ITEM |})) /\
+  HM_FROM_DRAIN_FALLBACK = HmPrevName /\ HM_INTOITER_DEC_PER_ITEM = HM_ITER_DEC_PER_ITEM /\
+  HM_INSERT_REPLACES_WITH_ONE = true /\ HM_APPEND_PUSHES_BACK = true /\
+  HM_RETAIN_DROPS_EMPTY = true /\ HM_LEN_IS_SUM_OF_VALUES = true.
+Proof.
+  split; [exact tie_removed_none_hint|]. split; [exact tie_drain_next|]. split; [exact tie_iter_next|].
+  repeat split; reflexivity.
+Qed.
 
 (* non-vacuity: a concrete mixed history *)
 Example C18_example :
